@@ -91,6 +91,25 @@ func (t *Collection) reclaimMarkUpdate(nloc *nodeLoc,
 	return n
 }
 
+// reclaimMarkClear drops the marks that an aborted mutation left on the
+// cached nodes of the (still current) version rooted at nloc.
+func (t *Collection) reclaimMarkClear(nloc *nodeLoc, reclaimMark *node) {
+	if nloc.isEmpty() {
+		return
+	}
+	n := nloc.Node()
+	if n == nil {
+		return
+	}
+	t.rootLock.Lock()
+	if n.next == reclaimMark {
+		n.next = nil
+	}
+	t.rootLock.Unlock()
+	t.reclaimMarkClear(&n.left, reclaimMark)
+	t.reclaimMarkClear(&n.right, reclaimMark)
+}
+
 func (t *Collection) reclaimNodesUnlocked(n *node,
 	reclaimLater *[3]*node, reclaimMark *node) int64 {
 	if n == nil {
